@@ -4,6 +4,7 @@ import (
 	"encoding/binary"
 	"fmt"
 	"io"
+	"strconv"
 	"strings"
 	"time"
 
@@ -83,12 +84,19 @@ func init() {
 			d := newDone(x)
 			x.Put("d", d)
 			for i, pat := range strings.Split(p["pat"], ",") {
-				id := uint32(10 + i)
+				slot := uint32(10 + i) // names the pattern in observations and verdict keys
+				id := slot
+				if l := strings.Split(p["ids"], ","); p["ids"] != "" && i < len(l) {
+					// explicit ids: the same number may be outstanding in both directions at once (each side allocates
+					// from its own counter), and ids are plain uint32 values
+					v, _ := strconv.ParseUint(l[i], 10, 32)
+					id = uint32(v)
+				}
 				ds, order, gap, start := parsePat(pat)
 				db, ddom := m.side(ds)
 				ab, adom := m.side(other(ds))
 				nonce := uint32(0xabc00 + i)
-				d.goIn(adom, fmt.Sprintf("accept%d", id), func() {
+				d.goIn(adom, fmt.Sprintf("accept%d", slot), func() {
 					if start > 0 {
 						x.Pause(start)
 					}
@@ -99,7 +107,7 @@ func init() {
 					c, err := ab.Accept(id)
 					x.Obs("accept%d err=%v", id, err != nil)
 					if err != nil {
-						x.Put(fmt.Sprintf("aerr%d", id), fmt.Sprintf("%v after %v", err, x.Now()-t0))
+						x.Put(fmt.Sprintf("aerr%d", slot), fmt.Sprintf("%v after %v", err, x.Now()-t0))
 						return
 					}
 					hdr := make([]byte, 8)
@@ -138,7 +146,7 @@ func init() {
 					}
 					x.Obs("accept%d ok", id)
 				})
-				d.goIn(ddom, fmt.Sprintf("dial%d", id), func() {
+				d.goIn(ddom, fmt.Sprintf("dial%d", slot), func() {
 					if start > 0 {
 						x.Pause(start)
 					}
@@ -149,7 +157,7 @@ func init() {
 					c, err := db.Dial(id)
 					x.Obs("dial%d err=%v", id, err != nil)
 					if err != nil {
-						x.Put(fmt.Sprintf("derr%d", id), fmt.Sprintf("%v after %v", err, x.Now()-t0))
+						x.Put(fmt.Sprintf("derr%d", slot), fmt.Sprintf("%v after %v", err, x.Now()-t0))
 						return
 					}
 					hdr := make([]byte, 8)
